@@ -9,6 +9,22 @@ from common import fhex, ml
 from wbgen import Elab, props_ml, props_tok, nlit
 
 
+def sanitize_numbers(x):
+    """keep every number of a generated file at <= 12 significant digits, so that rapidjson's fast
+    path and Python agree on its binary64 value (in place)"""
+    if isinstance(x, dict):
+        for k in x:
+            x[k] = sanitize_numbers(x[k])
+        return x
+    if isinstance(x, list):
+        for i in range(len(x)):
+            x[i] = sanitize_numbers(x[i])
+        return x
+    if isinstance(x, float):
+        return float("%.12g" % x)
+    return x
+
+
 class CaseSet:
     def __init__(self, tag):
         self.dir = os.path.join(common.WORK, "cases", "%s_%d" % (tag, os.getpid()))
@@ -25,6 +41,7 @@ class CaseSet:
             shutil.rmtree(self.dir, ignore_errors=True)
 
     def add_world(self, wj, seed=1, surfaces=None, model=True):
+        sanitize_numbers(wj)
         slot = len(self.worlds)
         path = os.path.join(self.dir, "w%d.wb" % slot)
         with open(path, "w") as f:
